@@ -281,6 +281,15 @@ func (x *Explorer) Len(a *Term) *Term {
 			return a.Args[0]
 		}
 	case KSlice:
+		// constant bounds
+		if hi, ok := a.Args[2].Int64(); ok {
+			if a.Args[1].Kind == KNone {
+				return x.T.Int(hi)
+			}
+			if lo, ok2 := a.Args[1].Int64(); ok2 {
+				return x.T.Int(hi - lo)
+			}
+		}
 		// full slice of an array: its static length
 		if a.Args[1].Kind == KNone && a.Args[2].Kind == KNone && a.Args[0].Type != nil {
 			if pt, ok := a.Args[0].Type.Underlying().(*types.Pointer); ok {
